@@ -491,6 +491,90 @@ func installedCase(w *gal.Writer, p *apk.Package, files []tar.Header, class, not
 	w.Add(gal.Case{Term: term, Class: "installed/" + class, Desc: desc{"installed", note, map[string]any{"package": descPkg(p), "files": fd}}})
 }
 
+type dbRec struct {
+	p     *apk.Package
+	files []tar.Header
+}
+
+// writeDB: AddInstalledPackage for each record in turn on ONE file system; the text of lib/apk/db/installed
+func writeDB(recs []dbRec) (string, error) {
+	fsys := apkfs.NewMemFS()
+	if err := fsys.MkdirAll("lib/apk/db", 0o755); err != nil {
+		return "", err
+	}
+	a, err := apk.New(apk.WithFS(fsys), apk.WithIgnoreMknodErrors(true))
+	if err != nil {
+		panic(err)
+	}
+	for _, r := range recs {
+		if err := a.AddInstalledPackage(r.p, r.files); err != nil {
+			return "", err
+		}
+	}
+	if len(recs) == 0 {
+		return "", nil
+	}
+	b, err := fsys.ReadFile("lib/apk/db/installed")
+	if err != nil {
+		panic(err)
+	}
+	return string(b), nil
+}
+
+func dbCase(w *gal.Writer, recs []dbRec, class, note string) {
+	b64, hx := newTbl(), newTbl()
+	var items []string
+	var descs []any
+	for _, r := range recs {
+		b64.add(base64.StdEncoding.EncodeToString(r.p.Checksum), append([]byte{}, r.p.Checksum...), true)
+		for i := range r.files {
+			c := csumOf(&r.files[i])
+			if c != "" && !strings.HasPrefix(c, "Q1") {
+				b, err := hex.DecodeString(c)
+				hx.add(c, b, err == nil)
+				if err == nil {
+					b64.add(base64.StdEncoding.EncodeToString(b), b, true)
+				}
+			}
+		}
+		items = append(items, gal.Pair(galPkg(r.p), galHdrs(r.files)))
+		var names []string
+		for i := range r.files {
+			names = append(names, r.files[i].Name)
+		}
+		descs = append(descs, map[string]any{"package": descPkg(r.p), "files": names})
+	}
+	text, werr := writeDB(recs)
+	rbTerm, rwTerm := "Err", "Err"
+	if werr == nil {
+		addDecodes(b64, text)
+		var ips []*apk.InstalledPackage
+		var rerr error
+		func() {
+			defer func() {
+				if x := recover(); x != nil {
+					fmt.Printf("IMPL-VIOLATION tag=panic-ParseInstalled {\"input\":%q,\"panic\":%q}\n", text, fmt.Sprint(x))
+					rerr = fmt.Errorf("panic")
+				}
+			}()
+			ips, rerr = apk.ParseInstalled(strings.NewReader(text))
+		}()
+		rbTerm = galResInstalled(ips, rerr)
+		if rerr == nil {
+			var again []dbRec
+			for _, ip := range ips {
+				b64.add(base64.StdEncoding.EncodeToString(ip.Checksum), append([]byte{}, ip.Checksum...), true)
+				again = append(again, dbRec{&ip.Package, ip.Files})
+			}
+			t2, e2 := writeDB(again)
+			rwTerm = galResStr(t2, e2)
+		}
+	}
+	term := fmt.Sprintf("(CDb {| dc_recs := %s; dc_b64 := %s; dc_hex := %s; dc_text := %s; dc_rb := %s; dc_rw := %s |})",
+		gal.List(items), b64.term(), hx.term(), galResStr(text, werr), rbTerm, rwTerm)
+	w.Add(gal.Case{Term: term, Class: "db/" + class, Desc: desc{"db", note, descs}})
+}
+
 // M: is applied through a pointer into pkg.Files; when an R: line was appended
 // in between, whether the pointer is stale depends on slice growth. Such texts
 // are outside what the model claims to follow.
@@ -835,6 +919,21 @@ func run(dir string, seed uint64, tier string) error {
 		bad[2].PAXRecords = map[string]string{apk.VerifPaxRecordsChecksumKey: "not-hex"}
 		installedCase(w, base(), bad, "corpus", "undecodable per-file checksum: the writer refuses")
 	}
+	{ // a database of several records: the reader resets its state at the blank line
+		tree := []tar.Header{{Name: "usr/", Typeflag: tar.TypeDir, Mode: 0o755}, {Name: "usr/bin/", Typeflag: tar.TypeDir, Mode: 0o750, Uid: 3, Gid: 4},
+			{Name: "usr/bin/ls", Typeflag: tar.TypeReg, Mode: 0o4711, Uid: 5, Gid: 6, PAXRecords: map[string]string{apk.VerifPaxRecordsChecksumKey: "Q1abc"}}}
+		etc := []tar.Header{{Name: "etc", Typeflag: tar.TypeDir, Mode: 0o755}, {Name: "./etc/passwd", Typeflag: tar.TypeReg, Mode: 0o644}}
+		p1, p2, p3 := base(), base(), base()
+		p2.Name, p2.InstallIf, p2.Checksum = "b", []string{"x"}, []byte{1, 2, 3}
+		p3.Name, p3.Replaces = "c", []string{"a"}
+		dbCase(w, nil, "corpus", "no record: the file is never created")
+		dbCase(w, []dbRec{{p1, tree}}, "corpus", "one record")
+		dbCase(w, []dbRec{{p1, tree}, {p2, nil}, {p3, etc}}, "corpus", "three records; the middle one has no files: the last directory of a record must not leak into the next")
+		dbCase(w, []dbRec{{p1, nil}, {p2, etc}}, "corpus", "R: lines of the second record are not joined with a directory of the first")
+		dbCase(w, []dbRec{{p1, tree}, {p1, tree}}, "corpus", "the same record twice")
+		dbCase(w, []dbRec{{p1, []tar.Header{tree[0], tree[1]}}, {p2, []tar.Header{{Name: "top-file", Typeflag: tar.TypeReg, Mode: 0o644}}}}, "corpus",
+			"C16-F5 in the second record: its only entry is dropped; nothing of the first record is attached to it")
+	}
 	for _, t := range []string{"P\n", "P", "", "\n", ":", "P:", "::\n", "P:a\n\n", "P:a\nV:1\n", "P:a\n\nP:b\n\n", "x\n", "PP:a\n\n", "P:a\nM:1:2:3\n\n", "P:a\na:1:2:3\n\n",
 		"P:a\nF:d\nM:1:2:0700\nR:f\na:3:4:0600\nZ:Q1xx\n\n", "P:a\nF:d\nM:1:2\n\n", "P:a\nF:d\nM:x:2:3\n\n", "P:a\nF:d\nM:1:2:9\n\n", "P:a\nR:f\n\n", "P:a\nF:/abs\nR:../../etc/passwd\n\n",
 		"P:a\nF:d\nR:../x\n\n", "P:a\nC:Q1\n\n", "P:a\nC:Q1!!\n\n", "P:a\nC:Q\n\n", "P:a\nC:md5sum\n\n", "P:a\nS:-1\n\n", "P:a\nS:18446744073709551615\n\n", "P:a\nS:18446744073709551616\n\n",
@@ -898,6 +997,22 @@ func run(dir string, seed uint64, tier string) error {
 	for i := 0; i < 60*scale; i++ {
 		files := genTree(r, 1+r.Intn(3), 1+r.Intn(3), r.Intn(8))
 		installedCase(w, genPkg(r, i%2 == 0), files, map[bool]string{true: "all-fields", false: "mixed"}[i%2 == 0], "")
+	}
+	for i := 0; i < 15*scale; i++ {
+		var recs []dbRec
+		for j, n := 0, 2+r.Intn(3); j < n; j++ {
+			var files []tar.Header
+			if r.Chance(4, 5) {
+				files = genTree(r, 1+r.Intn(2), 1+r.Intn(3), r.Intn(8))
+				for k := range files { // the writer refuses undecodable checksums: keep the database writable
+					if c := csumOf(&files[k]); c == "zz-not-hex" || c == "abc" {
+						files[k].PAXRecords = nil
+					}
+				}
+			}
+			recs = append(recs, dbRec{genPkg(r, r.Bool()), files})
+		}
+		dbCase(w, recs, "generated", "")
 	}
 	// outside the envelope: orphans, top-level leaves, duplicate names
 	for i := 0; i < 15*scale; i++ {
